@@ -331,6 +331,38 @@ impl World {
         Some(self.ops.len() - 1)
     }
 
+    /// Consume `n` packet identifiers with acknowledged QoS 1 publishes and forget those
+    /// operations again (indices restart at 0), so that a scenario starts with the
+    /// identifier counter at n+1. Returns false if something unexpected happened.
+    pub fn warm_up_identifiers(&mut self, n: u32) -> bool {
+        for _ in 0..n {
+            let spec = OpSpec::Publish(PublishSpec {
+                qos: Some(1),
+                topic: Some("w".into()),
+                ..Default::default()
+            });
+            let Some(i) = self.start_op(0, spec) else { return false };
+            self.quiesce(false);
+            self.sync_wire();
+            let pid = match self.pkts.last().map(|p| p.decoded.clone()) {
+                Some(Ok(rc::Packet::Publish(p))) => p.pid,
+                _ => None,
+            };
+            let Some(pid) = pid else { return false };
+            self.reader.feed(rc::encode(
+                &rc::Packet::Puback(rc::Ack { pid, ..Default::default() }),
+                &rc::Form::short(),
+            ));
+            self.quiesce(false);
+            if self.ops[i].res != Some(OpRes::Ok) {
+                return false;
+            }
+        }
+        self.ops.clear();
+        self.active_ops.clear();
+        true
+    }
+
     /// Poll one operation future once. Returns true if it completed now.
     pub fn poll_op(&mut self, i: usize) -> bool {
         self.total_polls += 1;
